@@ -633,6 +633,17 @@ def run(ctx):
     shared.completion_queries_partition(ctx, r16)
     shared.requires_read_with_defaults(ctx, r16)
 
+    # ---- R17 completion verdict and what a finished task does next ---------------
+    r17 = ctx.rule('R17', 'check_and_complete finishes the workflow exactly '
+                   'when nothing is pending, with the prescribed verdict; a '
+                   'finished task records its routing and does not continue '
+                   'while a policy holds it DELAYED', 'DT + GD')
+    from mstatic.rules import completion
+    completion.check_and_complete_table(ctx, r17)
+    completion.task_complete_followup(ctx, r17)
+    completion.regular_on_action_complete(ctx, r17)
+    completion.rerun_waiting_task(ctx, r17)
+
     # ---- R14 which commands follow a completed task / a start / a resume -------
     r14 = ctx.rule('R14', 'the controllers turn start, resume and every '
                    'completed task into the prescribed commands (start '
